@@ -165,7 +165,9 @@ def compare(ctx, table, events, mo, obs, tree, backend):
             if key.startswith("c05-mem-"):
                 ctx.violation("in-memory backend diverges from the reference tree semantics", rep)
             else:
+                # for C05 the property IS conformance to the reference model: the diverging history is the failing input
                 ctx.disagree("session", rep, str(bad[1]), str(bad[2]))
+                ctx.violation(f"server diverges from the sequential reference model ({bad[0]})", rep)
             return False
     if ftpsim.canon_tree(ftpsim.sx_to_tree(m_tree)) != tree:
         key = mem_key(events, len(events) - 1, backend, m_steps) or "c05-diverges-tree"
@@ -174,6 +176,7 @@ def compare(ctx, table, events, mo, obs, tree, backend):
             ctx.violation("in-memory backend diverges from the reference tree semantics", rep)
         else:
             ctx.disagree("session-tree", rep, rep["model"], rep["impl"])
+            ctx.violation("final tree diverges from the sequential reference model", rep)
         return False
     return True
 
